@@ -4,6 +4,7 @@ import (
 	"fmt"
 	"go/token"
 	"go/types"
+	"strings"
 
 	"golang.org/x/tools/go/ssa"
 )
@@ -508,6 +509,7 @@ func checkC06(c *Ctx) {
 			}
 		})
 		var watchGo *ssa.Go
+		var watchedHost ssa.Value
 		for _, cd := range cands {
 			a := cd.fn
 			eachInstr(a, func(_ *ssa.BasicBlock, _ int, in ssa.Instruction) {
@@ -538,6 +540,7 @@ func checkC06(c *Ctx) {
 						okWatch = true
 						watcher = a
 						watchGo = cd.goIn
+						watchedHost = canonical(call.Call.Args[0], a, cd.goIn)
 					}
 				}
 			})
@@ -590,6 +593,45 @@ func checkC06(c *Ctx) {
 				c.Fail("R5", "watcher lives as long as the handler", watcher.Pos(), why+": after the client half-closes, the connection keeps streaming from the host but is no longer closed when that host is removed")
 			}
 		}
+		// the host whose removal is watched (and whose counters are kept) is the host every dial of the session goes to
+		if okWatch && watchedHost != nil {
+			for i, dl := range dials {
+				a := stripConv(resolveCell(stripConv(dl.Call.Args[1])))
+				bound, why := false, ""
+				switch h := watchedHost.(type) {
+				case *ssa.Alloc:
+					// a variable assigned more than once: the dial reads it (or dials the value just assigned to it)
+					if u, ok := a.(*ssa.UnOp); ok && u.Op == token.MUL && cellKey(a) == ssa.Value(h) {
+						bound = true
+					}
+					for _, r := range *h.Referrers() {
+						if st, ok := r.(*ssa.Store); ok && st.Addr == ssa.Value(h) && stripConv(st.Val) == a && instrDominates(st, dl) {
+							later := false
+							for _, r2 := range *h.Referrers() {
+								if st2, ok := r2.(*ssa.Store); ok && st2 != st && st2.Addr == ssa.Value(h) && instrDominates(st, st2) && instrDominates(st2, dl) {
+									later = true
+								}
+							}
+							if !later {
+								bound = true
+							}
+						}
+					}
+					why = "the dial does not read the variable whose removal is watched"
+				case *ssa.Phi:
+					for _, e := range h.Edges {
+						if stripConv(e) == a {
+							bound = true
+						}
+					}
+					why = "the host dialled is none of the values the watched variable can hold"
+				default:
+					bound = a == watchedHost
+					why = "the session watches " + exprDesc(watchedHost) + " but dials " + exprDesc(a)
+				}
+				c.Check(bound, "R5", fmt.Sprintf("dial#%d goes to the host whose removal is watched", i+1), dl.Pos(), "dial target and watched host are the same variable", why+": the session is bound to a host it is not connected to - removing that other host cuts this healthy session, removing the real one does not, and the connection counters of the wrong host are changed")
+			}
+		}
 		c.Check(okWatch, "R5", "watcher goroutine", hc.Pos(), "go select{ <-host.WaitRemoved(): close both connections }", "the handler does not watch the picked host's removal and close both connections: established connections survive the removal of their host")
 		_ = watcher
 	}
@@ -599,6 +641,10 @@ func checkC06(c *Ctx) {
 	checkHostConnPairing(c, "R9")
 	c.Rule("R10", "the candidate list handed out by Healthy() is never written, sorted or spliced in place by a reader (shared with C15.R9)")
 	checkSnapshotImmutable(c, "R10")
+	c.Rule("R11", "a removed host leaves the candidate list (shared with C15.R10): from every delete on the member map the stored object reaches a tier purge on every path, independent of its health flag")
+	checkMemberDeleteLeavesTiers(c, "R11")
+	c.Rule("R12", "every endpoint event reaches the host set: each processor's add/remove/replace handler hands the event's own list to host.Set.Add/Remove/ReplaceAll on every path (the empty-list return aside)")
+	checkEndpointEventsReachSet(c, "R12")
 	// the snapshot given to the balancer is current only if every tier change rebuilds the cache
 	checkTierRebuild(c, "R1")
 
@@ -609,18 +655,107 @@ func checkC06(c *Ctx) {
 	} else {
 		okAll := true
 		n := 0
+		// a value that is a constructed balancer: the interface made of a constructor's result; the result of a module
+		// function all of whose returns are such; the result of calling a builder taken from a package-level table with
+		// the comma-ok form, all of whose entries are such functions
+		var built func(v ssa.Value, depth int) bool
+		allReturnsBuilt := func(g *ssa.Function, depth int) bool {
+			if g == nil || g.Blocks == nil || depth > 3 {
+				return false
+			}
+			ok, nr := true, 0
+			eachInstr(g, func(_ *ssa.BasicBlock, _ int, in ssa.Instruction) {
+				if ret, isRet := in.(*ssa.Return); isRet && len(ret.Results) == 1 {
+					nr++
+					if !built(ret.Results[0], depth+1) {
+						ok = false
+					}
+				}
+			})
+			return ok && nr > 0
+		}
+		built = func(v ssa.Value, depth int) bool {
+			switch x := v.(type) {
+			case *ssa.MakeInterface:
+				call, ok := x.X.(*ssa.Call)
+				return ok && calleeFn(call.Common()) != nil
+			case *ssa.Call:
+				if g := calleeFn(x.Common()); g != nil {
+					return isModFn(g) && allReturnsBuilt(g, depth)
+				}
+				// builder from a table
+				ex, ok := x.Call.Value.(*ssa.Extract)
+				if !ok || ex.Index != 0 {
+					return false
+				}
+				lk, ok := ex.Tuple.(*ssa.Lookup)
+				if !ok || !lk.CommaOk {
+					return false
+				}
+				ld, ok := lk.X.(*ssa.UnOp)
+				if !ok {
+					return false
+				}
+				g, ok := ld.X.(*ssa.Global)
+				if !ok {
+					return false
+				}
+				// the call is on the ok branch
+				onOK := false
+				for _, r := range *lk.Referrers() {
+					if e1, isEx := r.(*ssa.Extract); isEx && e1.Index == 1 {
+						for _, rr := range *e1.Referrers() {
+							if iff, isIf := rr.(*ssa.If); isIf {
+								if s := iff.Block().Succs[0]; len(s.Preds) == 1 && (s == x.Block() || s.Dominates(x.Block())) {
+									onOK = true
+								}
+							}
+						}
+					}
+				}
+				if !onOK {
+					return false
+				}
+				// every entry of the table, which only the package initialiser writes
+				nent, okEnt := 0, true
+				for _, sf := range p.SrcFns {
+					if fnPkg(sf) != fnPkg(newFn) || p.isTestFn(sf) {
+						continue
+					}
+					eachInstr(sf, func(_ *ssa.BasicBlock, _ int, in ssa.Instruction) {
+						mu, isMU := in.(*ssa.MapUpdate)
+						if !isMU {
+							return
+						}
+						tbl := false
+						if l2, isLd := mu.Map.(*ssa.UnOp); isLd && l2.X == ssa.Value(g) {
+							tbl = true
+						}
+						for _, r := range *mu.Map.Referrers() {
+							if st, isSt := r.(*ssa.Store); isSt && st.Addr == ssa.Value(g) {
+								tbl = true
+							}
+						}
+						if !tbl {
+							return
+						}
+						nent++
+						if sf.Name() != "init" || !allReturnsBuilt(funcValue(mu.Value), depth+1) {
+							okEnt = false
+						}
+					})
+				}
+				return okEnt && nent > 0
+			}
+			return false
+		}
 		eachInstr(newFn, func(_ *ssa.BasicBlock, _ int, in ssa.Instruction) {
 			ret, ok := in.(*ssa.Return)
 			if !ok {
 				return
 			}
 			n++
-			mi, ok := ret.Results[0].(*ssa.MakeInterface)
-			if !ok {
-				okAll = false
-				return
-			}
-			if call, ok := mi.X.(*ssa.Call); !ok || calleeFn(call.Common()) == nil {
+			if !built(ret.Results[0], 0) {
 				okAll = false
 			}
 		})
@@ -875,4 +1010,114 @@ func hasLocalTicket(fn *ssa.Function, hosts ssa.Value) bool {
 		}
 	})
 	return found
+}
+
+// checkEndpointEventsReachSet (C06.R12, C08.R10): every processor applies every endpoint event to its host set. For each
+// implementation of OnSvcHostAdd / OnSvcHostRemove / OnSvcAllHostReplace, every path from the entry to a return passes
+// a call of host.(*Set).Add / Remove / ReplaceAll that is given the event's own host list (directly or through module
+// helpers that hand the list on) - except a return taken because the list is empty. A shortcut that skips the call
+// when the event "brings nothing new" judged by addresses alone drops changes of a host's type and lists that name
+// an address twice, and the set keeps members that the configuration no longer has.
+func checkEndpointEventsReachSet(c *Ctx, rule string) {
+	p := c.P
+	ops := map[string]string{"OnSvcHostAdd": "Add", "OnSvcHostRemove": "Remove", "OnSvcAllHostReplace": "ReplaceAll"}
+	var reach func(fn *ssa.Function, prm *ssa.Parameter, op string, depth int) []*ssa.BasicBlock
+	reach = func(fn *ssa.Function, prm *ssa.Parameter, op string, depth int) []*ssa.BasicBlock {
+		isPrm := func(v ssa.Value) bool {
+			v = stripConv(v)
+			if v == ssa.Value(prm) {
+				return true
+			}
+			if sl, ok := v.(*ssa.Slice); ok && sl.Low == nil && sl.High == nil && stripConv(sl.X) == ssa.Value(prm) {
+				return true
+			}
+			return false
+		}
+		applies := func(in ssa.Instruction) bool {
+			cc := callOf(in)
+			if cc == nil {
+				return false
+			}
+			if _, isGo := in.(*ssa.Go); isGo {
+				return false
+			}
+			g := calleeFn(cc)
+			if g == nil || !isModFn(g) {
+				return false
+			}
+			for i, a := range cc.Args {
+				if !isPrm(a) {
+					continue
+				}
+				if g.Name() == op && g.Signature.Recv() != nil && modType(g.Signature.Recv().Type(), "host", "Set") {
+					return true
+				}
+				if depth < 2 && g.Blocks != nil && i < len(g.Params) {
+					if reach(g, g.Params[i], op, depth+1) == nil {
+						return true
+					}
+				}
+			}
+			return false
+		}
+		// returns inside the "list is empty" branch do not count
+		emptyRet := map[*ssa.BasicBlock]bool{}
+		for _, d := range fn.Blocks {
+			iff, ok := d.Instrs[len(d.Instrs)-1].(*ssa.If)
+			if !ok {
+				continue
+			}
+			cmp, ok := iff.Cond.(*ssa.BinOp)
+			if !ok || cmp.Op != token.EQL {
+				continue
+			}
+			ln, ok := cmp.X.(*ssa.Call)
+			if !ok || !isBuiltin(ln, "len") || stripConv(ln.Call.Args[0]) != ssa.Value(prm) {
+				continue
+			}
+			if z, isZ := constInt(cmp.Y); !isZ || z != 0 {
+				continue
+			}
+			if s := d.Succs[0]; len(s.Preds) == 1 {
+				for _, b := range fn.Blocks {
+					if b == s || s.Dominates(b) {
+						emptyRet[b] = true
+					}
+				}
+			}
+		}
+		return findPath(entryPos(fn), pathQuery{target: func(in ssa.Instruction) bool {
+			_, isRet := in.(*ssa.Return)
+			return isRet && !emptyRet[in.Block()]
+		}, avoid: applies})
+	}
+	n := 0
+	for _, fn := range p.SrcFns {
+		op, ok := ops[fn.Name()]
+		if !ok || !isModFn(fn) || p.isTestFn(fn) || fn.Signature.Recv() == nil || fn.Blocks == nil || fn.Synthetic != "" {
+			continue
+		}
+		if pk := fnPkg(fn); pk == nil || strings.Contains(pk.Pkg.Path(), "/mock") {
+			continue
+		}
+		var prm *ssa.Parameter
+		for _, q := range fn.Params[1:] {
+			if _, isSl := q.Type().Underlying().(*types.Slice); isSl {
+				prm = q
+			}
+		}
+		if prm == nil {
+			continue
+		}
+		n++
+		site := fmt.Sprintf("%s applies the event to the host set", fnKey(fn))
+		if path := reach(fn, prm, op, 0); path != nil {
+			c.Fail(rule, site, fn.Pos(), "a path returns without handing the event's host list to host.Set."+op+" ("+p.pathString(path)+"): the event is dropped - a host whose type changed keeps its old tier, a host the list no longer names stays a member and keeps being selected")
+		} else {
+			c.OK(rule, site, fn.Pos(), "every path (but the empty-list return) reaches host.Set."+op+" with the event's list")
+		}
+	}
+	if n < 6 {
+		c.Unresolved(rule, fmt.Sprintf("expected the endpoint handlers of the TCP and the Redis processor (6), found %d", n))
+	}
 }
